@@ -27,7 +27,11 @@ def emu_grid(T: float, dt: float, rel_times) -> list[float]:
     n = int(np.floor(T / dt + 1e-12))
     ts = [k * dt for k in range(n + 1)] + [float(T)] + [float(e) * T for e in rel_times]
     ts = [min(max(t, 0.0), float(T)) for t in ts]
-    return merge_times(ts)
+    # the backends treat times closer than 1e-10 of the duration as one time (documented matching tolerance)
+    out = merge_times(ts, tol=max(1e-9, 1.0000001e-10 * float(T)))
+    if out and abs(out[-1] - float(T)) <= max(1e-9, 1.0000001e-10 * float(T)):
+        out[-1] = float(T)
+    return out
 
 
 def pchip_mid(signal, T: int, mids, clamp=False):
